@@ -428,11 +428,11 @@ func TestVerifC01MapOrders(t *testing.T) {
 		r.Count("transitions", ex.Points)
 	}
 	// the same for a package with more functions than any per-package budget one might think of
-	// (10 030 small functions of seven shapes): whatever a budget does, it does the same on every run
+	// (21 030 small functions of seven shapes): whatever a budget does, it does the same on every run
 	if sh, n := vh.Shard(); sh == 1%n {
 		var sb strings.Builder
 		sb.WriteString("package bigpkg\n\n")
-		for i := 0; i < 10030; i++ {
+		for i := 0; i < 21030; i++ {
 			switch i % 7 {
 			case 0:
 				fmt.Fprintf(&sb, "func G%05d(a int) int { return a + %d }\n", i, i%13)
@@ -467,7 +467,7 @@ func TestVerifC01MapOrders(t *testing.T) {
 				baseline = got
 			}
 			if got != baseline {
-				r.Violate("maporder/FingerprintPackages-10030-functions/"+vh.Hash(fmt.Sprint(choices)), "the result list of FingerprintPackages for a package of 10030 functions depends on map iteration order\n"+firstDiffLines(baseline, got), map[string]interface{}{"choices": choices})
+				r.Violate("maporder/FingerprintPackages-21030-functions/"+vh.Hash(fmt.Sprint(choices)), "the result list of FingerprintPackages for a package of 21030 functions depends on map iteration order\n"+firstDiffLines(baseline, got), map[string]interface{}{"choices": choices})
 				return false
 			}
 			return !r.Expired()
@@ -487,7 +487,7 @@ func TestVerifC01MapOrders(t *testing.T) {
 		})
 		r.Count("traces_validated_against_impl", ex.Executions)
 		r.Count("transitions", ex.Points)
-		r.Nontrivial("FingerprintPackages-10030-functions")
+		r.Nontrivial("FingerprintPackages-21030-functions")
 	}
 }
 
